@@ -367,6 +367,7 @@ int main(int argc, char **argv)
 
     memset(&cfg, 0, sizeof(cfg));
     cfg.property = "C01";
+    cfg.sanitizer_is_oracle = 1; /* a crashing case child is a violation (memory fault in the library) */
     cfg.level = "model_checking";
     cfg.engine = "fork-dfs over live sessions (snapshot = fork of the process holding both ssl_t)";
     cfg.rule = "case = (configuration, honest-handshake prefix or post-handshake state, victim role, injected attacker record or encode probe); "
